@@ -8,6 +8,11 @@ TRUST = ["Eigen dense self-adjoint eigen-solver, LU and MatrixFunctions::exp use
          "held on the executions observed only; nothing is claimed for inputs/schedules that were not run"]
 
 VH = {
+    "C02": dict(drivers=[dict(driver="g2def", flavours=P2, timeout=240)],
+                floor=dict(quick=20, thorough=200),
+                rule="cases = generated model (N<=4 quick, <=5 thorough; degenerate classes over-represented) x partition x {real,complex}; per case 5-9 index quadruples (equal and distinct indices) x "
+                     "14-24 Matsubara triples incl. n1=n3, n2=n3, n1+n2=-1 against the triple time-ordered integral evaluated by 4-block matrix exponentials (6 orderings); tables of compute(false,freqs) and "
+                     "compute(true,freqs) vs on-demand on a 129-point grid; non-trivial = the exercised objects held >=1 resonant term and >=1 component is non-vanishing; distinct by model+partition"),
     "C10": dict(drivers=[dict(driver="fieldop", flavours=P2, timeout=60)],
                 floor=dict(quick=40, thorough=400),
                 rule="cases = generated model x partition (default/ignored/custom integer-linear) x {real,complex}; for every index: c, c+ computed one by one and through FieldOperatorContainer, "
@@ -41,6 +46,10 @@ HOOK_COMMITS = []
 NOT_YET = {}
 
 INFO = {
+    "C02": dict(technique="runtime oracle monitor: chi_ijkl(w1,w2;w3) vs the documented triple integral evaluated with Van Loan block-matrix exponentials (no Lehmann sum); table path vs on-demand path",
+                level_text="On-demand values are compared with the definition integral (independent of any spectral representation) on models that maximise degeneracy and at coinciding/bosonic-zero frequencies; both table paths are compared with on-demand evaluation entry by entry; held on what was run.",
+                level_note="Trusts Eigen's matrix exponential (cross-checked against the Lehmann oracle in C01); N <= 4 quick / 5 thorough, |n| small; tolerance gap-aware (1e-9*S unless distinct poles lie within 1e-6).",
+                design_ref="DESIGN.md section 3, C02"),
     "C10": dict(technique="runtime oracle monitor: stored eigenbasis operator blocks rotated back with the stored eigenvectors vs Jordan-Wigner matrices; CAR assembled over blocks",
                 level_text="Every stored block of c, c+ and c+c (both sparse copies, both construction routes) is transformed back to Fock space and compared with the independent Jordan-Wigner matrix, on generated models with degenerate spectra and several partitions, real and complex; held on what was run.",
                 level_note="Uses the library's own eigenvectors for the rotation (their correctness is C03's subject); N <= 5 quick / 7 thorough.",
